@@ -315,7 +315,7 @@ func (eng) Generate(mode, tier string, r *hx.Rand) []*hx.Case {
 	var cs []*hx.Case
 	nTab, nMid, nBig, nWal := 84, 5, 1, 130
 	if tier == "thorough" {
-		nTab, nMid, nBig, nWal = 900, 80, 4, 1500
+		nTab, nMid, nBig, nWal = 600, 40, 3, 1000
 	}
 	forced := []int{0, 1, 2, 15, 16, 17, 31, 32, 33, 47, 48, 49, 64, 65}
 	for i := 0; i < nTab; i++ {
